@@ -74,6 +74,14 @@ ENGINES["ctl"] = {
              "clock -> testing/synctest fake clock"],
 }
 
+ENGINES["gw"] = {
+    "pkg": "./harness/gw",
+    "instr": ["spec/tun:1"],
+    "inject": {"gateway/zz_verif_export.go": "inject/gateway/zz_verif_export.go", "tun/client/ui/build/index.html": "inject/client/index.html"},
+    "real": ["gateway: proxyHandler (httputil.ReverseProxy + transport + overlayDialer), errorHandler, forwardTCP, httpConnect, extractHostname; spec/tun status frames and Pipe"],
+    "stub": ["tun.Server -> scripted (returns each error class, wrapped 0-2 times, or an in-memory connection)", "streams -> net.Pipe", "clock -> testing/synctest fake clock"],
+}
+
 def ring(level="exploration", quick=240, thorough=6000, note=""):
     return {"engine": "ring", "level": level, "quick": quick, "thorough": thorough, "note": note}
 
@@ -130,12 +138,18 @@ PROPS.update({
     "C51": {"engine": "ctl", "level": "exploration", "quick": 96, "thorough": 3000},
     "C27": {"engine": "ctl", "level": "exploration", "quick": 96, "thorough": 3000},
     "C29": {"engine": "ctl", "level": "exploration", "quick": 64, "thorough": 2000},
+    "C30": {"engine": "ctl", "level": "exploration", "quick": 32, "thorough": 600},
     "C42": {"engine": "ctl", "level": "exploration", "quick": 800, "thorough": 40000},
     "C48": {"engine": "ctl", "level": "exploration", "quick": 160, "thorough": 6000},
     "C49": {"engine": "ctl", "level": "exploration", "quick": 160, "thorough": 6000},
 })
 
+PROPS.update({
+    "C36": {"engine": "gw", "level": "fault_enumeration", "quick": 297, "thorough": 297},
+})
+
 RULES = {
+    "gw": "one evaluation = one cell of {HTTP, raw TCP, CONNECT} x 11 tunnel outcomes (not found, client not connected, no direct path, timeout error, deadline, other error, connection that never answers, success, undecodable / no-direct / error status frame) x error wrapped 0-2 times x 3 host spellings; the seed is the cell index; distinct = distinct cells",
     "ctl": "one evaluation = one seeded world (1-3 tunnel servers on a real chord ring, 2-5 simulated clients of different kinds, a seeded operation list) executed under a seeded schedule; distinct = distinct (task, yield site) sequences; non-trivial = the world booted and the scenario ran to its end",
     "client": "one evaluation = one seeded client configuration (certificate, key, tunnels) saved 1-3 times with changed content on the simulated disk; every operation boundary of every save is a crash image that is loaded with the real NewConfig; distinct = distinct configurations",
     "syncobj": "one evaluation = one seeded plan (operations per task, chunk sizes, delays, close/cancel/deadline instants, scripted outcomes) executed on the real object under a seeded schedule; distinct = distinct (task, yield site) sequences (for the enumerated checks C15/C38: distinct cells); non-trivial by the per-check rule in the harness (more than one successful transition / payload larger than the buffer / more than one task ...)",
